@@ -50,6 +50,11 @@ def oracle(ctx, f, c):
         desc = "%s #%d %d bytes retry=%s (mtu %d)" % (r["api"], r["id"], r["n"], r["retry"], c["mtu"])
         for t, ok in r["cb"]:
             if ok:
+                if r.get("uid", 0) >= 990000:
+                    # sent from the connect callback: it travels with the challenge response, is ACCEPTED by the peer endpoint
+                    # at the hand-off and handed to the application with the client's next datagram - the property speaks of
+                    # the endpoint, so the application-delivery instant is no proxy here
+                    continue
                 if not any(dt <= t + EPS for dt in deliveries):
                     rside = r["receiver"][0]
                     purged = r.get("frag_id") is not None and any(fid == r["frag_id"] for _, fid in f.watch[rside].frag_gone)
